@@ -98,6 +98,7 @@ func (m *MainLoop) runMainLoop(ctx context.Context) *govnr.ForeverHandle {
 
 func (m *MainLoop) run(ctx context.Context) {
 	defer m.worker.interrupt()
+	verifMainEvent(m, "run.start", 0, 0)
 
 	if m.electionScheduler == nil {
 		panic("Election trigger was not configured, cannot run Lean Helix (mainloop.run)")
@@ -108,6 +109,7 @@ func (m *MainLoop) run(ctx context.Context) {
 	var maxBlockHeightBySync *primitives.BlockHeight
 	var shutdown bool
 	for !shutdown {
+		verifMainIdle(m)
 		m.state.GcOldContexts()
 		select {
 		case <-ctx.Done(): // system shutdown
@@ -129,16 +131,19 @@ func (m *MainLoop) run(ctx context.Context) {
 			}
 
 		case trigger := <-m.electionScheduler.ElectionChannel():
+			verifMainEvent(m, "election.begin", uint64(trigger.Hv.Height()), uint64(trigger.Hv.View()))
 			targetHv := state.NewHeightView(trigger.Hv.Height(), trigger.Hv.View()+1)
 			m.state.Contexts.CancelOlderThan(targetHv)
 			_, err := m.state.Contexts.For(targetHv)
 			if err != nil {
 				m.logger.Debug("LHFLOW LHMSG MAINLOOP - IGNORING ELECTION TRIGGER WITH %e", err)
+				verifMainEvent(m, "election.ignored", uint64(trigger.Hv.Height()), uint64(trigger.Hv.View()))
 				continue
 			}
 
 			m.logger.Debug("LHFLOW ELECTION MAINLOOP - CANCELED WORKER CONTEXT (received election trigger with H=%d V=%d)", trigger.Hv.Height(), trigger.Hv.View())
 			m.sendElectionMessageNonBlocking(ctx, trigger)
+			verifMainEvent(m, "election.done", uint64(trigger.Hv.Height()), uint64(trigger.Hv.View()))
 
 		case receivedBlockWithProof := <-m.mainUpdateStateChannel: // NodeSync
 			if receivedBlockWithProof == nil {
@@ -152,8 +157,10 @@ func (m *MainLoop) run(ctx context.Context) {
 				receivedBlockHeight = receivedBlockWithProof.block.Height()
 			}
 
+			verifMainEvent(m, "sync.begin", uint64(receivedBlockHeight), 0)
 			if maxBlockHeightBySync != nil && *maxBlockHeightBySync >= receivedBlockHeight {
 				m.logger.Debug("LHFLOW UPDATESTATE MAINLOOP - Already received a more recent update message than block %d", receivedBlockHeight)
+				verifMainEvent(m, "sync.stale", uint64(receivedBlockHeight), 0)
 				continue
 			}
 
@@ -163,6 +170,7 @@ func (m *MainLoop) run(ctx context.Context) {
 			_, err := m.state.Contexts.For(hv)
 			if err != nil {
 				m.logger.Debug("LHFLOW LHMSG MAINLOOP - IGNORING BLOCK SYNC WITH %e", err)
+				verifMainEvent(m, "sync.ignored", uint64(receivedBlockHeight), 0)
 				continue
 			}
 
@@ -178,10 +186,12 @@ func (m *MainLoop) run(ctx context.Context) {
 				maxBlockHeightBySync = new(primitives.BlockHeight)
 			}
 			*maxBlockHeightBySync = receivedBlockHeight
+			verifMainEvent(m, "sync.done", uint64(receivedBlockHeight), 0)
 			m.logger.Debug("LHFLOW UPDATESTATE MAINLOOP - Wrote to worker UpdateState channel")
 		}
 	}
 
+	verifMainEvent(m, "run.end", 0, 0)
 	m.logger.Info("LHFLOW LHMSG MAINLOOP DONE STOPPED LISTENING, SHUTDOWN END")
 }
 
